@@ -10,6 +10,8 @@
 
 #include <boost/gil/extension/io/bmp/tags.hpp>
 
+#include <limits>
+
 namespace boost { namespace gil {
 
 #if BOOST_WORKAROUND(BOOST_MSVC, >= 1400)
@@ -100,12 +102,6 @@ public:
             _info._width  = _io_dev.read_uint32();
             _info._height = _io_dev.read_uint32();
 
-            if (_info._height < 0)
-            {
-                _info._height = -_info._height;
-                _info._top_down = true;
-            }
-
             // the number of color planes being used. Must be set to 1.
             _io_dev.read_uint16();
 
@@ -167,6 +163,26 @@ public:
         else
         {
             io_error( "Invalid BMP info header." );
+        }
+
+        // Row sizes, pitches and file offsets are computed from these fields in int: reject what cannot be an image
+        // (zero or negative width, a height that cannot be negated) or would overflow width * bits_per_pixel.
+        io_error_if( _info._width <= 0
+                  || _info._width > ( std::numeric_limits< bmp_image_width::type >::max )() / 64
+                  || _info._height == 0
+                  || _info._height == ( std::numeric_limits< bmp_image_height::type >::min )()
+                   , "Invalid image dimensions in BMP header."
+                   );
+        io_error_if( _info._bits_per_pixel != 1  && _info._bits_per_pixel != 4  && _info._bits_per_pixel != 8
+                  && _info._bits_per_pixel != 15 && _info._bits_per_pixel != 16 && _info._bits_per_pixel != 24
+                  && _info._bits_per_pixel != 32
+                   , "Unsupported bit depth in BMP header."
+                   );
+        // a negative height denotes a top-down bitmap
+        if (_info._height < 0)
+        {
+            _info._height = -_info._height;
+            _info._top_down = true;
         }
 
         _info._valid = true;
